@@ -35,7 +35,8 @@ CONDS = ['is_good==1', 'is_good!=1', 'v>-0.5', 'v<=1e-1', 'v>=.5', 'v<2', 'v==0'
 
 def configs(tier):
     if tier == 'quick':
-        return [('history-N3-d2', {'N': 3, 'depth': 2}), ('history-N4-d1', {'N': 4, 'depth': 1})]
+        return [('history-N3-d2', {'N': 3, 'depth': 2}), ('history-N4-d1', {'N': 4, 'depth': 1}),
+                ('history-N3-d3-metric+pick', {'N': 3, 'depth': 3, 'ops': [0, 1, 3], '_budget_s': 60})]
     return [('history-N3-d3', {'N': 3, 'depth': 3}), ('history-N5-d1', {'N': 5, 'depth': 1}), ('history-N4-d2', {'N': 4, 'depth': 2}), ('history-N5-d2', {'N': 5, 'depth': 2}), ('history-N4-d3', {'N': 4, 'depth': 3}),
             ('history-N6-d1', {'N': 6, 'depth': 1})]
 
@@ -101,12 +102,14 @@ def harness(h):
         good.append(1 if (incr and bool(p[s] <= math.pi / 12) and bool(p[e] >= TWO_PI - math.pi / 12)) else 0)
     model['is_good'] = good
     subset = None       # list of selected cycle indices
+    last_conds = None
     errors = []
     ok_metrics = ok_subset = ok_chain = ok_cache = ok_export = True
     det = {}
     k_metric = 0
     for step in range(depth):
-        op = int(h.int('op%d' % step, 0, 5))
+        allowed = h.params.get('ops', [0, 1, 2, 3, 4, 5])
+        op = allowed[int(h.int('op%d' % step, 0, len(allowed) - 1))]
         par = h.int('par%d' % step, 0, 7)
         par2 = h.int('parb%d' % step, 0, 2)
         if op == 0:
@@ -148,6 +151,7 @@ def harness(h):
                     if all(holds(model[parse(cd)[0]][ci], parse(cd)[1], parse(cd)[2]) for cd in conds):
                         sel.append(ci)
                 subset = sel
+                last_conds = conds
                 h.note('subset-picked' if sel else 'subset-empty')
                 chain_of = []
                 ch = -1
@@ -222,6 +226,13 @@ def harness(h):
                 errors.append('step %d op %d par %s: %s: %s' % (step, op, (par, par2), type(e).__name__, e))
             break
         # ---- invariants after the step
+        if subset is not None and last_conds is not None and all(parse(cd)[0] in model for cd in last_conds):
+            now = [all(holds(model[parse(cd)[0]][ci], parse(cd)[1], parse(cd)[2]) for cd in last_conds) for ci in range(ncyc)]
+            for c in con:
+                mm = [bool(v) for v in c.get_matching_cycles(last_conds)]
+                if mm != now:
+                    ok_subset = False
+                    det['subset'] = ('get_matching_cycles after a metric changed', last_conds, mm, now)
         for c in con:
             for name, want in model.items():
                 if name not in c.metrics:
